@@ -332,6 +332,22 @@ class G:
                     acts.append(f"{r.choice(self.hooks)}();")
             if not acts:
                 return [self.match_expr() + ";"]
+            if r.random() < 0.3:
+                # conditional per-byte actions (an `if` over actions in the do-block, possibly with an else branch)
+                self.note("s_foreach_cond")
+                conds = ["$last != '_'", "$last >= 'a'", "$last == '0'", "$last < 'x'"]
+                if self.outs_of("int"):
+                    conds.append(f"{r.choice(self.outs_of('int'))[1]} < 100")
+                k2 = r.randint(1, len(acts))
+                wrapped = [f"if {r.choice(conds)} {{"] + ["  " + a for a in acts[:k2]] + ["}"]
+                if r.random() < 0.4 and self.hooks:
+                    wrapped += ["else {", f"  {r.choice(self.hooks)}();", "}"]
+                acts = wrapped + acts[k2:]
+            if self.loops and r.random() < 0.6:
+                # the body leaves an enclosing loop: the do-block belongs to the bytes the foreach reads, not to what follows the loop
+                self.note("s_foreach_break")
+                body = ["case {", f"  /[{r.choice(['a-z', '0-9', 'a-c'])}]/ -> {{}}", f'  "{r.choice(";.")}" -> {{ break; }}', "}"]
+                return ["foreach {"] + ["  " + x for x in body] + ["} do {"] + ["  " + a for a in acts] + ["}"]
             inner = self.match_expr(False)
             if r.random() < 0.25:
                 inner = "wait " + inner
